@@ -28,7 +28,7 @@ func VerifC04Replay() {
 			rt.Assume(!(cmds[i].and && cmds[i].or))
 			rt.Assume(!(cmds[i].method && (cmds[i].and || cmds[i].or)))
 		}
-		cmds[i].exit = rt.IntRange("exit", 0, 255)
+		cmds[i].exit = rt.IntRange("exit", -255, 255)
 	}
 	var mu sync.Mutex
 	ranReal := make([]bool, n)
